@@ -1453,6 +1453,12 @@ func HandleUploadFile(cc *hotline.ClientConn, t *hotline.Transaction) (res []hot
 		return cc.NewErrReply(t, fmt.Sprintf("Cannot accept upload because there is already a file named \"%v\".  Try choosing a different Name.", string(fileName)))
 	}
 
+	// A name such as ".." resolves to the file root itself.  That names no file inside the root, and the partial file
+	// of such an upload would be a sibling of the root folder.
+	if filepath.Clean(fullFilePath) == filepath.Clean(cc.FileRoot()) {
+		return cc.NewErrReply(t, fmt.Sprintf("Cannot accept upload because \"%v\" is not a valid file name.", string(fileName)))
+	}
+
 	ft := cc.NewFileTransfer(hotline.FileUpload, cc.FileRoot(), fileName, filePath, transferSize)
 
 	replyT := cc.NewReply(t, hotline.NewField(hotline.FieldRefNum, ft.RefNum[:]))
